@@ -1,0 +1,46 @@
+//go:build verif
+// +build verif
+
+package mysql
+
+import (
+	"errors"
+	"sync/atomic"
+)
+
+// Verification hook (build tag "verif" only): fault injection for the secondary (sqlite) store.
+// VerifFailDeleteGroup(n) arms "the n-th DeleteGroup call from now (n >= 1) returns an error
+// without touching the database" - the observable behaviour of SQLITE_BUSY past the busy
+// timeout, a full disk or an I/O error. One fault per arming.
+var (
+	verifDeleteGroupCalls  int64
+	verifDeleteGroupFailAt int64 // 0 = disarmed
+	verifDeleteGroupHits   int64
+)
+
+var errVerifDeleteGroup = errors.New("verif: injected group index failure (database is locked)")
+
+// VerifFailDeleteGroup arms the fault; n <= 0 disarms.
+func VerifFailDeleteGroup(n int) {
+	atomic.StoreInt64(&verifDeleteGroupHits, 0)
+	if n <= 0 {
+		atomic.StoreInt64(&verifDeleteGroupFailAt, 0)
+		return
+	}
+	atomic.StoreInt64(&verifDeleteGroupFailAt, atomic.LoadInt64(&verifDeleteGroupCalls)+int64(n))
+}
+
+// VerifDisarmDeleteGroup disarms and reports how many calls failed since the last arming.
+func VerifDisarmDeleteGroup() int {
+	atomic.StoreInt64(&verifDeleteGroupFailAt, 0)
+	return int(atomic.LoadInt64(&verifDeleteGroupHits))
+}
+
+func verifDeleteGroupFault() error {
+	c := atomic.AddInt64(&verifDeleteGroupCalls, 1)
+	if at := atomic.LoadInt64(&verifDeleteGroupFailAt); at > 0 && c == at {
+		atomic.AddInt64(&verifDeleteGroupHits, 1)
+		return errVerifDeleteGroup
+	}
+	return nil
+}
